@@ -98,28 +98,48 @@ func (t *tr) call(x *ast.CallExpr, tv types.TypeAndValue, pre *[]hoist, underSC 
 
 // effCall: e is a call of a translated function or method (on the current receiver) that is effectful or writes through
 // its parameters / receiver -> its code and the caller variables that receive what it wrote, else ""
-func (t *tr) effCall(e ast.Expr, pre *[]hoist) (string, []string) {
+func (t *tr) effCall(e ast.Expr, pre *[]hoist) (string, []string, []string) {
 	c, ok := e.(*ast.CallExpr)
 	if !ok {
-		return "", nil
+		return "", nil, nil
 	}
 	key := t.calleeKey(c)
 	if key == "" || !t.want[key] {
-		return "", nil
+		return "", nil, nil
 	}
 	if _, done := t.eff[key]; !done {
 		fail(t, e, "call of %s before its translation (order the function list)", key)
 	}
 	if !t.eff[key] && len(t.mut[key]) == 0 && len(t.mutF[key]) == 0 {
-		return "", nil // pure: an ordinary expression
+		return "", nil, nil // pure: an ordinary expression
 	}
-	var muts []string
+	var muts, posts []string
+	sub := map[int]string{} // argument index -> the hoisted sub-slice handed to the callee
 	for _, i := range t.mut[key] {
-		id, ok := c.Args[i].(*ast.Ident)
-		if !ok {
-			fail(t, e, "argument %d of %s is written by the callee and must be a variable", i, key)
+		switch a := c.Args[i].(type) {
+		case *ast.Ident:
+			muts = append(muts, v(a.Name))
+		case *ast.SliceExpr:
+			// x[lo:] handed to a callee that writes through it: the callee's writes land in x from lo on
+			if a.High != nil || a.Slice3 || a.Low == nil {
+				fail(t, e, "argument %d of %s is written by the callee: only x[lo:] is supported", i, key)
+			}
+			base := lhsName(t, a.X)
+			lo := t.expr(a.Low, pre, false)
+			t.tmp++
+			tlo := fmt.Sprintf("t%d", t.tmp)
+			*pre = append(*pre, hoist{tlo, "(Val " + lo + ")"})
+			t.tmp++
+			ts := fmt.Sprintf("t%d", t.tmp)
+			*pre = append(*pre, hoist{ts, fmt.Sprintf("(go_slice %s %s (go_len %s))", base, tlo, base)})
+			sub[i] = ts
+			t.tmp++
+			back := fmt.Sprintf("t%d", t.tmp)
+			muts = append(muts, back)
+			posts = append(posts, fmt.Sprintf("let %s := (go_splice %s %s %s) in", base, base, tlo, back))
+		default:
+			fail(t, e, "argument %d of %s is written by the callee and must be a variable or x[lo:]", i, key)
 		}
-		muts = append(muts, v(id.Name))
 	}
 	var args []string
 	if strings.Contains(key, ".") {
@@ -130,7 +150,11 @@ func (t *tr) effCall(e ast.Expr, pre *[]hoist) (string, []string) {
 			muts = append(muts, v(t.recvName+"."+f))
 		}
 	}
-	for _, a := range c.Args {
+	for i, a := range c.Args {
+		if s, ok := sub[i]; ok {
+			args = append(args, s)
+			continue
+		}
 		args = append(args, t.expr(a, pre, false))
 	}
 	fuel := ""
@@ -144,7 +168,7 @@ func (t *tr) effCall(e ast.Expr, pre *[]hoist) (string, []string) {
 	if !t.eff[key] {
 		code = "(Val " + code + ")"
 	}
-	return code, muts
+	return code, muts, posts
 }
 
 // pack: a function that writes through slice parameters returns them after its results
@@ -349,11 +373,17 @@ func (t *tr) block(stmts []ast.Stmt, e env, retf func(string) string, k func(env
 		})
 		loop := fmt.Sprintf("(go_for fuel (fun st => %s) (fun st => %s) %s)", letPat(names, "st", cond), letPat(names, "st", body), st)
 		return fmt.Sprintf("(gbind %s (fun lr => match lr with\n  | inl st => %s\n  | inr r => %s end))", loop, letPat(names, "st", rest(e)), retf("r"))
+	case *ast.ExprStmt:
+		var pre []hoist
+		if c, muts, posts := t.effCall(x.X, &pre); c != "" {
+			return t.withPre(x, pre, fmt.Sprintf("(gbind %s (fun r => %s))", c, letPat(append([]string{"_"}, muts...), "r", strings.Join(append(posts, rest(e)), "\n  "))))
+		}
+		fail(t, x, "unsupported expression statement")
 	case *ast.ReturnStmt:
 		var pre []hoist
 		if len(x.Results) == 1 {
-			if c, muts := t.effCall(x.Results[0], &pre); c != "" {
-				return t.withPre(x, pre, "(gbind "+c+" (fun r => "+letPat(append([]string{"r0"}, muts...), "r", retf(t.pack("r0")))+"))")
+			if c, muts, posts := t.effCall(x.Results[0], &pre); c != "" {
+				return t.withPre(x, pre, "(gbind "+c+" (fun r => "+letPat(append([]string{"r0"}, muts...), "r", strings.Join(append(posts, retf(t.pack("r0"))), "\n  "))+"))")
 			}
 		}
 		var rs []string
@@ -390,6 +420,20 @@ func (t *tr) assign(x *ast.AssignStmt, e env, rest func(env) string) string {
 			fail(t, x, "unsupported assignment operator")
 		}
 		n := lhsName(t, x.Lhs[0])
+		if c, muts, posts := t.effCall(x.Rhs[0], &pre); c != "" {
+			// x op= F(...): Go evaluates the operand x before the call only if it is not addressable-by-index; for a plain
+			// variable or field the value after the call is used by gc as well as before (F cannot assign it: it is a local
+			// or a receiver field F does not write - checked)
+			for _, m := range muts {
+				if m == n {
+					fail(t, x, "the callee writes the variable it is added to")
+				}
+			}
+			var post2 []string
+			code := t.arith(op, x, t.info.Types[x.Lhs[0]].Type, n, "r0", x.Rhs[0], &pre, false)
+			post2 = append(append(post2, posts...), "let "+n+" := "+code+" in")
+			return t.withPre(x, pre, fmt.Sprintf("(gbind %s (fun r => %s))", c, letPat(append([]string{"r0"}, muts...), "r", strings.Join(append(post2, rest(e)), "\n  "))))
+		}
 		b := t.expr(x.Rhs[0], &pre, false)
 		code := t.arith(op, x, t.info.Types[x.Lhs[0]].Type, n, b, x.Rhs[0], &pre, false)
 		return t.withPre(x, pre, letPat([]string{n}, code, rest(e)))
@@ -403,13 +447,13 @@ func (t *tr) assign(x *ast.AssignStmt, e env, rest func(env) string) string {
 		}
 	}
 	if len(x.Rhs) == 1 {
-		if c, muts := t.effCall(x.Rhs[0], &pre); c != "" {
+		if c, muts, posts := t.effCall(x.Rhs[0], &pre); c != "" {
 			var names []string
 			for _, l := range x.Lhs {
 				names = append(names, lhsName(t, l))
 			}
 			names = append(names, muts...)
-			return t.withPre(x, pre, fmt.Sprintf("(gbind %s (fun r => %s))", c, letPat(names, "r", rest(e2))))
+			return t.withPre(x, pre, fmt.Sprintf("(gbind %s (fun r => %s))", c, letPat(names, "r", strings.Join(append(posts, rest(e2)), "\n  "))))
 		}
 	}
 	if len(x.Lhs) != len(x.Rhs) {
@@ -616,6 +660,9 @@ func (t *tr) mutatedFields(fd *ast.FuncDecl) []string {
 	}
 	set := map[string]bool{}
 	mark := func(x ast.Expr) {
+		if ix, ok := x.(*ast.IndexExpr); ok {
+			x = ix.X
+		}
 		if sel, ok := x.(*ast.SelectorExpr); ok {
 			if id, ok := sel.X.(*ast.Ident); ok && id.Name == t.recvName {
 				set[sel.Sel.Name] = true
@@ -632,8 +679,17 @@ func (t *tr) mutatedFields(fd *ast.FuncDecl) []string {
 			mark(x.X)
 		case *ast.CallExpr:
 			if ck := t.calleeKey(x); ck != "" {
-				for _, f := range t.mutF[ck] {
-					set[f] = true
+				if strings.Contains(ck, ".") {
+					for _, f := range t.mutF[ck] {
+						set[f] = true
+					}
+				}
+				for _, k := range t.mut[ck] {
+					if sl, ok := x.Args[k].(*ast.SliceExpr); ok {
+						mark(sl.X)
+					} else {
+						mark(x.Args[k])
+					}
 				}
 			}
 		}
